@@ -257,6 +257,38 @@ CLAIMS = {
         design="§7 C06",
         note=TB + "Not modelled: CPython compile/exec, inspect, argparse, ast.unparse, black (their behaviour is observed per generated artefact).",
     ),
+    "C07": dict(
+        technique="Lean 4 theorems on a model of ir_merge with the set-iteration order as an explicit argument + replay of every real ir_merge call on the model; inspect.signature as predicate",
+        text=(
+            "Kernel-checked about Merge.irMergeParams (parser_utils.ir_merge on the parameter maps): irMerge_keys (for "
+            "EVERY iteration order of the set of common names the merged description has exactly the target's names in the "
+            "target's order followed by the names only the signature has, in signature order - nothing dropped, nothing "
+            "duplicated), updKey_at / mergeParam (documented information wins, the signature fills the gaps), "
+            "irMerge_deterministic, and the kernel-checked witnesses documented_first_witness (D3, still open) and "
+            "diff_order_matters (D2, repaired). Every ir_merge call made by the real parsers on generated functions, methods "
+            "and class+__init__ pairs is recorded and replayed on the model with a random iteration order. The predicate "
+            "executes each definition and compares inspect.signature with the parsed interface (names once, order, "
+            "defaults, annotations, prose attached to the named parameter, precedence). Partial: in-memory objects "
+            "(inspect.getsource path) and the argument-to-param conversion are covered by the predicate only."
+        ),
+        design="§7 C07",
+        note=TB + "Only ir_merge is modelled; func_arg2param/_set_name_and_type around it are exercised by the predicate.",
+    ),
+    "C12": dict(
+        technique="Lean 4 theorem that the merge is independent of the set-iteration order (+ history-independence theorem of C13) + sub-process sweep over PYTHONHASHSEED and call orders",
+        text=(
+            "Kernel-checked: irMerge_deterministic / inter_order_irrelevant / updKey_comm (the only place where the "
+            "parsers iterate a set, ir_merge's loop over the common names, gives the same result for every iteration order "
+            "- per-name updates commute), diff_order_matters (the second loop did depend on it before fix ab10a32), and "
+            "Shared.shared_eq_fresh (no dependence on earlier calls when emitters do not mutate their input). The model is "
+            "replayed against every recorded real ir_merge call under two random orders. The part a theorem cannot reach - "
+            "the interpreter's hash randomisation and per-process state - is covered by running the same batch of "
+            "conversions in sub-processes under PYTHONHASHSEED 0..7 + random (thorough: 0..63), in permuted orders with "
+            "repetitions, and requiring byte-identical output per conversion."
+        ),
+        design="§7 C12",
+        note=TB + "A static audit of other nondeterminism sources (sets, globals, function attributes) is not automated; the sweep is the tie.",
+    ),
 }
 
 PENDING_REASON = "check not built yet in this round (work in progress; see DESIGN.md §10 build order) — not a claim that the technique cannot apply"
